@@ -29,7 +29,10 @@ import (
 const tsBase = uint64(1700000000000)
 const indexName = "c18idx"
 
-// the events of the store: segment A = two blocks (ids 1..6, 7..12), segment B = one block (ids 101..108)
+// the events of the store.  Segment A = three blocks (ids 1..6, 7..12, 13..18), segment B = two
+// blocks (ids 101..104, 105..108); every block has its own, clearly different timestamp range
+// (block k of the store: tsBase + k*1_000_000 + id), so that a timestamp served from another
+// block of the same column file is visible in the answer.
 type event struct {
 	ID   int    `json:"id"`
 	Seg  string `json:"seg"`
@@ -37,26 +40,34 @@ type event struct {
 	Word string `json:"w"`
 	N    int    `json:"n"`
 	Msg  string `json:"msg"`
+	TS   uint64 `json:"ts"`
 }
 
 var wordsA = []string{"alpha", "beta", "gamma"}
 var wordsB = []string{"alpha", "delta", "delta"}
 
-func storeEvents() (a1, a2, b []event) {
-	mk := func(id int, seg string, words []string) event {
+type unit struct {
+	Name string // A1 A2 A3 B1 B2
+	Seg  string // A B
+	Evs  []event
+}
+
+func storeBlocks() []unit {
+	mk := func(id int, seg string, words []string, blk int) event {
 		return event{ID: id, Seg: seg, Grp: fmt.Sprintf("%s%d", seg, id%2+1), Word: words[id%len(words)], N: id * 10,
-			Msg: fmt.Sprintf("msg-%s-%d-%s", seg, id, strings.Repeat("x", id%5))}
+			Msg: fmt.Sprintf("msg-%s-%d-%s", seg, id, strings.Repeat("x", id%5)), TS: tsBase + uint64(blk)*1000000 + uint64(id)}
 	}
-	for id := 1; id <= 6; id++ {
-		a1 = append(a1, mk(id, "a", wordsA))
+	rng := func(name, seg string, lo, hi, blk int, words []string) unit {
+		u := unit{Name: name, Seg: seg}
+		for id := lo; id <= hi; id++ {
+			u.Evs = append(u.Evs, mk(id, strings.ToLower(seg), words, blk))
+		}
+		return u
 	}
-	for id := 7; id <= 12; id++ {
-		a2 = append(a2, mk(id, "a", wordsA))
+	return []unit{
+		rng("A1", "A", 1, 6, 0, wordsA), rng("A2", "A", 7, 12, 1, wordsA), rng("A3", "A", 13, 18, 2, wordsA),
+		rng("B1", "B", 101, 104, 5, wordsB), rng("B2", "B", 105, 108, 6, wordsB),
 	}
-	for id := 101; id <= 108; id++ {
-		b = append(b, mk(id, "b", wordsB))
-	}
-	return
 }
 
 func initNode(dir string) error {
@@ -81,7 +92,7 @@ func ingest(evs []event, reqid uint64) error {
 	for _, e := range evs {
 		fmt.Fprintf(&sb, "{\"index\":{\"_index\":%q}}\n", indexName)
 		fmt.Fprintf(&sb, "{\"timestamp\":%d,\"id\":%d,\"seg\":%q,\"grp\":%q,\"w\":%q,\"n\":%d,\"msg\":%q}\n",
-			tsBase+uint64(e.ID), e.ID, e.Seg, e.Grp, e.Word, e.N, e.Msg)
+			e.TS, e.ID, e.Seg, e.Grp, e.Word, e.N, e.Msg)
 	}
 	_, _, err := eswriter.HandleBulkBody([]byte(sb.String()), nil, reqid, 0, false)
 	return err
@@ -95,20 +106,22 @@ func workerBuild(dir string, withMetrics bool) {
 		os.Exit(4)
 	}
 	zero := time.Duration(0)
-	a1, a2, b := storeEvents()
 	fail := func(err error) {
 		if err != nil {
 			fmt.Fprintln(os.Stderr, "build:", err)
 			os.Exit(5)
 		}
 	}
-	fail(ingest(a1, 1))
-	writer.FlushWipBufferToFile(&zero, &zero)
-	fail(ingest(a2, 2))
-	writer.FlushWipBufferToFile(&zero, &zero)
-	writer.ForceRotateSegmentsForTest()
-	fail(ingest(b, 3))
-	writer.FlushWipBufferToFile(&zero, &zero)
+	// one flush = one block; rotation after the last block of a segment
+	prev := ""
+	for i, u := range storeBlocks() {
+		if prev != "" && prev != u.Seg {
+			writer.ForceRotateSegmentsForTest()
+		}
+		prev = u.Seg
+		fail(ingest(u.Evs, uint64(i+1)))
+		writer.FlushWipBufferToFile(&zero, &zero)
+	}
 	writer.ForceRotateSegmentsForTest()
 	writer.WaitForSortedIndexToComplete()
 	if withMetrics {
@@ -294,6 +307,7 @@ func runMetricsQuery(name, expr string) qres {
 
 var logQueries = [][2]string{
 	{"all", "*"},
+	{"asc", "* | sort timestamp"}, // reads the blocks in ascending time order
 	{"term", "w=alpha"},
 	{"msg", "msg=msg-a-7-xx OR msg=msg-b-104-xxxx"},
 	{"num", "n>50 AND n<1060"},
